@@ -55,10 +55,17 @@ def replay_g_{tag}({", ".join(es + rs)}):
                 else:
                     for v in variants:
                         cond(tag, 2, 2, flags, rt, rflag, rt >= 0, v)
+    # n = 3: binary edges, all flag sets, no redirect (cycles that do not pass through the flagged template need three)
+    for flags in itertools.product([False, True], repeat=3):
+        cond("n3_" + "".join("1" if f else "0" for f in flags) + "_rx", 3, 1, flags, -1, False, False)
     if not quick:
-        # n = 3: binary edges, all flag sets, no redirect; plus single-flag sets with every redirect placement
-        for flags in itertools.product([False, True], repeat=3):
-            cond("n3_" + "".join("1" if f else "0" for f in flags) + "_rx", 3, 1, flags, -1, False, False)
+        # single-flag sets with every redirect placement; ternary edges; four templates
+        for k in range(3):
+            flags = tuple(i == k for i in range(3))
+            cond(f"n3t_only{k}_rx", 3, 2, flags, -1, False, False)
+        for k in range(4):
+            flags = tuple(i == k for i in range(4))
+            cond(f"n4_only{k}_rx", 4, 1, flags, -1, False, False)
         for k in range(3):
             flags = tuple(i == k for i in range(3))
             for rt in (0, 1, 2, 3):
@@ -70,23 +77,23 @@ def replay_g_{tag}({", ".join(es + rs)}):
 def run(rep: C.Report) -> None:
     quick = C.tier() == "quick"
     rep.explanation = (
-        "The real analyze_templates runs on a real temporary SQLite store under CrossHair. Symbolic: the inclusion matrix (per edge: absent / written as stored / "
+        "The real analyze_templates runs on a real temporary SQLite store; CrossHair chooses the graph (case split) and the analysis then runs untraced (CrossHair would bypass get_page's lru_cache memo, which the analysis clears at specific points), under a 20 s alarm that turns non-termination into a failure. Symbolic: the inclusion matrix (per edge: absent / written as stored / "
         "written in another spelling that resolves to the same page: lower-case initial, underscore for space, namespace prefix), whether a template includes the redirect page; enumerated per condition: classifier flag set, redirect target "
         "(none / each template / dangling) and the redirect's own flag. The marked set must equal an independent least-fixpoint closure plus the redirect rule. "
         "The solver only drives the case split here (finite space, exhaustive within the bound) - the weakest use of the technique in this framework, stated as such."
     )
     rep.extra["exhaustive_within_bound"] = True
     rep.assumptions += ["the classifier reports included templates by name without namespace prefix; a name written with a lower-case initial denotes the same template (MediaWiki rule)", "redirect propagation is applied once after the closure, as the statement's 'plus' says"]
-    rep.outside += ["graphs with more than 2 (thorough: 3) templates", "several redirect pages, redirect chains"]
+    rep.outside += ["graphs with more than 3 (thorough: 4) templates", "several redirect pages, redirect chains"]
     rep.trusted += ["CrossHair 0.0.110", "z3", "sqlite3 (real)"]
     src = open(H).read() + "\n" + gen(quick)
     xh.check_harness(
         rep,
         H,
-        {"^g_": dict(name="Ob1 marked set == closure + redirect rule, analysis terminates", functions=["core.py:Wtp.analyze_templates", "core.py:Wtp.set_template_pre_expand", "core.py:Wtp.get_all_pages"], bounds="n=2 templates: 3^4 inclusion matrices x 2^2 redirect inclusions x all flag sets x all redirect placements" + ("" if quick else "; n=3: 2^9 matrices x all flag sets (no redirect), and single-flag sets x all redirect placements"))},
-        timeout=150 if quick else 900,
+        {"^g_": dict(name="Ob1 marked set == closure + redirect rule, analysis terminates", functions=["core.py:Wtp.analyze_templates", "core.py:Wtp.set_template_pre_expand", "core.py:Wtp.get_all_pages"], bounds="n=2 templates: 3^4 inclusion matrices x 2^2 redirect inclusions x all flag sets x all redirect placements; n=3: 2^9 matrices x all flag sets (no redirect)" + ("" if quick else "; n=3: single-flag sets x all redirect placements, 3^9 matrices for single-flag sets; n=4: 2^16 matrices for single-flag sets"))},
+        timeout=150 if quick else 3600,
         src=src,
-        batch=2,
+        batch=2 if quick else 1,
         twins=False,
     )
 
